@@ -65,6 +65,14 @@ pub fn install_hook() {
                 .map(|l| {
                     let f = l.file();
                     let f = f.strip_prefix("/repo/").unwrap_or(f);
+                    // a dependency: keep `<crate>-<version>/src/...`, not the machine's registry path
+                    let f = match f.find("/registry/src/") {
+                        Some(i) => {
+                            let rest = &f[i + "/registry/src/".len()..];
+                            rest.find('/').map(|j| &rest[j + 1..]).unwrap_or(rest)
+                        }
+                        None => f,
+                    };
                     format!("{}:{}", f, l.line())
                 })
                 .unwrap_or_else(|| "?".into());
